@@ -190,6 +190,7 @@ func (h *H) Trace(label string, v ...interface{}) {
 
 // Scheduling helpers: meaningful only under the engine.
 func (h *H) Quiesce()       {}
+func (h *H) QuiesceAll()    {}
 func (h *H) Yield()         {}
 func (h *H) HeldLocks() int { return 0 }
 func (h *H) Symbolic() bool { return false }
